@@ -22,6 +22,7 @@ type c08Case struct {
 	UE     string   `json:"ue"`
 	App    bool     `json:"app,omitempty"`    // the description is provisioned by PFD Management and the PDR names the application
 	PFDSeq []string `json:"pfdseq,omitempty"` // sequence of PFD requests before the PDR (names of c08PFDReqs)
+	P4     bool     `json:"p4,omitempty"`     // the description is programmed through the UP4 plug-in (applications table)
 }
 
 type c08Env struct {
@@ -153,7 +154,7 @@ func c08Grammar(full bool) []string {
 	var out []string
 	remotes := []string{"any", "10.1.2.3", "10.1.2.3/32", "10.1.2.3/31", "10.1.2.0/24", "10.0.0.0/8", "128.0.0.0/1", "0.0.0.0/0"}
 	ports := []string{"", " 80", " 80-80", " 1000-1003", " 65535", " 0-65535", " 1", " 65530-65535", " 0-5"}
-	protos := []string{"ip", "tcp", "udp", "6", "17", "1", "0", "255"}
+	protos := []string{"ip", "tcp", "udp", "6", "17", "1", "127", "128", "132", "254", "0", "255"}
 	for _, act := range []string{"permit", "deny"} {
 		for _, dir := range []string{"out", "in"} {
 			for _, pr := range protos {
@@ -250,6 +251,8 @@ func c08PFDReqs() []c08PFDReq {
 	// the other direction's description names a protocol and comes first, the PDR direction's says "ip"; an application
 	// provisioned for one direction only
 	t3 := map[string][]string{"app1": {"permit in tcp from 10.2.0.0/16 443 to assigned", "permit out ip from 10.7.0.0/16 to assigned"}, "app2": {"permit in udp from 10.4.0.0/16 53 to assigned"}}
+	// descriptions with ports on the UE side ('assigned') only, the application side open: taken verbatim like any other
+	t4 := map[string][]string{"app1": {"permit in ip from any to assigned 5000-5010", "permit out udp from 10.1.0.0/16 to assigned 8080"}, "app2": {"permit out ip from any to assigned 443"}}
 	mk := func(t map[string][]string) []sPFD {
 		var out []sPFD
 		for _, a := range []string{"app1", "app2"} {
@@ -263,6 +266,7 @@ func c08PFDReqs() []c08PFDReq {
 		{"T1", sReq{Kind: kPFD, PFDs: mk(t1)}, true, t1},
 		{"T2", sReq{Kind: kPFD, PFDs: mk(t2)}, true, t2},
 		{"T3", sReq{Kind: kPFD, PFDs: mk(t3)}, true, t3},
+		{"T4", sReq{Kind: kPFD, PFDs: mk(t4)}, true, t4},
 		{"bad-noflow-app1", sReq{Kind: kPFD, PFDs: []sPFD{{App: "app2", Flows: []string{"permit out ip from 10.9.0.0/16 to assigned"}}, {App: "app1", Bad: "noflow"}}}, false, nil},
 		{"bad-noflow-app3", sReq{Kind: kPFD, PFDs: []sPFD{{App: "app3", Flows: []string{"permit out ip from 10.9.0.0/16 to assigned"}, Bad: "noflow"}}}, false, nil},
 		{"bad-noctx-app2", sReq{Kind: kPFD, PFDs: []sPFD{{App: "app1", Flows: []string{"permit out ip from 10.8.0.0/16 to assigned"}}, {App: "app2", Bad: "noctx"}}}, false, nil},
@@ -295,57 +299,123 @@ func (e *c08Env) checkPFDSeq(seq []c08PFDReq) {
 		}
 	}
 	// PDRs naming each application, both directions
-	for _, app := range []string{"app1", "app2", "app3"} {
-		for _, uplink := range []bool{false, true} {
-			cs := c08Case{App: true, PFDSeq: names, Uplink: uplink, UE: "16.0.0.1", Desc: app}
-			res.journal(cs)
-			entries, accepted, pframe := e.entriesFor(cs, "", app)
-			res.Evaluations++
-			if pframe != "" {
-				res.finding("c08:panic:"+strings.SplitN(pframe, ":", 2)[0], pframe, cs)
-				continue
-			}
-			flows, known := table[app]
-			if !known {
-				if accepted {
-					res.finding("c08:pfd-unknown-app-accepted", fmt.Sprintf("after %v a PDR naming %s (not in the table) was accepted", names, app), cs)
+	// two UE addresses one after the other: 'assigned' is each PDR's own UE address, "the same for all PDRs of that direction"
+	for _, ueAddr := range []string{"16.0.0.1", "16.0.0.9"} {
+		for _, app := range []string{"app1", "app2", "app3"} {
+			for _, uplink := range []bool{false, true} {
+				cs := c08Case{App: true, PFDSeq: names, Uplink: uplink, UE: ueAddr, Desc: app}
+				res.journal(cs)
+				entries, accepted, pframe := e.entriesFor(cs, "", app)
+				res.Evaluations++
+				if pframe != "" {
+					res.finding("c08:panic:"+strings.SplitN(pframe, ":", 2)[0], pframe, cs)
+					continue
 				}
-				continue
-			}
-			if !accepted {
-				res.finding("c08:pfd-table-lost:"+app, fmt.Sprintf("after %v the application %s must be provisioned, but a PDR naming it was refused", names, app), cs)
-				continue
-			}
-			// the description whose direction keyword the agent associates with the PDR's direction: "out" for uplink, "in" for downlink
-			want := ""
-			kw := "in"
-			if uplink {
-				kw = "out"
-			}
-			for _, fl := range flows {
-				if f := strings.Fields(fl); len(f) > 1 && f[1] == kw && want == "" {
-					want = fl
+				flows, known := table[app]
+				if !known {
+					if accepted {
+						res.finding("c08:pfd-unknown-app-accepted", fmt.Sprintf("after %v a PDR naming %s (not in the table) was accepted", names, app), cs)
+					}
+					continue
 				}
-			}
-			box := pdrBox(cs.rPDR(""), nil)
-			if want != "" {
-				// verbatim: source -> packet source, destination -> packet destination
-				rf, _ := refParseFlow(want)
-				if rf.Proto >= 0 {
-					box.v[fbProto], box.m[fbProto] = uint64(rf.Proto), 0xFF
+				if !accepted {
+					res.finding("c08:pfd-table-lost:"+app, fmt.Sprintf("after %v the application %s must be provisioned, but a PDR naming it was refused", names, app), cs)
+					continue
 				}
-				ue := uint64(vIP4(cs.UE))
-				box.v[fbSrcIP], box.m[fbSrcIP] = uint64(rf.Src.IP), uint64(refMask(rf.Src.Len))
-				box.v[fbDstIP], box.m[fbDstIP] = ue, 0xFFFFFFFF // 'assigned'
-				if rf.Src.HasPort {
-					box.sLo, box.sHi = rf.Src.Lo, rf.Src.Hi
+				// the description whose direction keyword the agent associates with the PDR's direction: "out" for uplink, "in" for downlink
+				want := ""
+				kw := "in"
+				if uplink {
+					kw = "out"
 				}
+				for _, fl := range flows {
+					if f := strings.Fields(fl); len(f) > 1 && f[1] == kw && want == "" {
+						want = fl
+					}
+				}
+				box := pdrBox(cs.rPDR(""), nil)
+				if want != "" {
+					// verbatim: source -> packet source, destination -> packet destination
+					rf, _ := refParseFlow(want)
+					if rf.Proto >= 0 {
+						box.v[fbProto], box.m[fbProto] = uint64(rf.Proto), 0xFF
+					}
+					ue := uint64(vIP4(cs.UE))
+					box.v[fbSrcIP], box.m[fbSrcIP] = uint64(rf.Src.IP), uint64(refMask(rf.Src.Len))
+					box.v[fbDstIP], box.m[fbDstIP] = ue, 0xFFFFFFFF // 'assigned'
+					if rf.Src.HasPort {
+						box.sLo, box.sHi = rf.Src.Lo, rf.Src.Hi
+					}
+					if rf.Dst.HasPort {
+						box.dLo, box.dHi = rf.Dst.Lo, rf.Dst.Hi
+					}
+				}
+				if v := c08Compare(entries, box); v != "" {
+					res.finding("c08:pfd-filter-differs", fmt.Sprintf("after %v, %s PDR naming %s: %s (expected the %q description %q verbatim)", names, map[bool]string{true: "uplink", false: "downlink"}[uplink], app, v, kw, want), cs)
+				}
+				res.Distinct++
 			}
-			if v := c08Compare(entries, box); v != "" {
-				res.finding("c08:pfd-filter-differs", fmt.Sprintf("after %v, %s PDR naming %s: %s (expected the %q description %q verbatim)", names, map[bool]string{true: "uplink", false: "downlink"}[uplink], app, v, kw, want), cs)
-			}
-			res.Distinct++
 		}
+	}
+}
+
+// ---- UP4: the same grammar through the P4Runtime plug-in. The remote side of the filter lives in the applications table
+// (LPM prefix, port range, ternary protocol), the UE side in the terminations entries that name the application id;
+// C04's image check is the oracle (it derives the expected entry from the description with the reference reader).
+type c08UP4Env struct {
+	res *vResult
+	sys *sessSys
+	n   int
+}
+
+func (e *c08UP4Env) fresh() {
+	if e.sys != nil {
+		e.res.Transitions += int64(e.sys.steps)
+		e.sys.close()
+	}
+	cfg := vCfg{P4: true, NConns: 1, P4Conf: &vP4Cfg{DefaultTC: 3}}
+	e.sys = &sessSys{ex: &seqExplorer{res: e.res, scenario: cfg}, res: e.res, in: newVInst(cfg), m: newRefAgent(1)}
+	e.sys.exec(&sessReq{sReq: sReq{Kind: kAssoc, Conn: 0}})
+}
+
+func (e *c08UP4Env) check(desc string) {
+	res := e.res
+	// (a refused establishment keeps its counter cells - recorded finding of C05 - so the instance is renewed regularly)
+	if e.n%40 == 0 {
+		e.fresh()
+	}
+	e.n++
+	cs := c08Case{Desc: desc, P4: true, UE: "16.0.0.1"}
+	res.journal(cs)
+	res.Evaluations++
+	p, f, q := up4RuleSet("16.0.0.1", 0x100, c04Peers[0], desc, 1, 0)
+	flt, strict := refPDRFilter(&rPDR{sPDR: sPDR{SDF: desc}})
+	if flt == nil && strict {
+		// no constraint beyond the UE address: the pair has the match key of the default rules, so it goes without them (two
+		// rules of one session with one match key are kept out of every alphabet, DESIGN.md section 11)
+		p = p[2:]
+	}
+	ctx := e.sys.exec(&sessReq{sReq: sReq{Kind: kEst, Conn: 0, CPSEID: uint64(e.n), CreatePDR: p, CreateFAR: f, CreateQER: q}})
+	switch {
+	case ctx.pframe != "":
+		res.finding("c08:up4-panic:"+ctx.pframe, fmt.Sprintf("%q: %s", desc, ctx.pmsg), cs)
+		e.n = 0 // the instance is dead
+		return
+	case !strict:
+		res.outcome("up4-loose")
+	case !ctx.accepted || ctx.newSess == nil:
+		res.outcome("up4-strict-refused")
+		res.finding("c08:up4-grammar-refused", fmt.Sprintf("description %q of the supported grammar was refused by the UP4 plug-in", desc), cs)
+	default:
+		res.outcome("up4-strict")
+		res.Distinct++
+		for _, v := range up4ImageCheck(e.sys) {
+			res.finding("c08:up4-filter-differs:"+v.class, fmt.Sprintf("%q through UP4: %s", desc, v.desc), cs)
+			break
+		}
+	}
+	if ctx.newSess != nil {
+		e.sys.exec(&sessReq{sReq: sReq{Kind: kDel, Conn: 0}, Sess: ctx.newSess.Idx})
 	}
 }
 
@@ -353,17 +423,31 @@ func TestVerifC08(t *testing.T) {
 	vQuietLoggers()
 	res := vNewResult()
 	defer res.write(t)
-	res.Rule = "grammar expanded completely over action {permit,deny} x direction {in,out} x protocol {ip,tcp,udp,6,17,1,0,255} x remote {any, host, /32, /31, /24, /8, /1, /0} x port {absent, p, p-p, lo-hi, 65535, 0-65535, 1, 65530-65535, 0-5} x both " +
+	res.Rule = "grammar expanded completely over action {permit,deny} x direction {in,out} x protocol {ip,tcp,udp,6,17,1,127,128,132,254,0,255} x remote {any, host, /32, /31, /24, /8, /1, /0} x port {absent, p, p-p, lo-hi, 65535, 0-65535, 1, 65530-65535, 0-5} x both " +
 		"endpoint orders (+ UE-side ports / no assigned side: crash-freedom only), each string inline in a Create PDR for both PDR directions and UE address present/absent; every token-level corruption (delete, duplicate, " +
-		"truncate after, replace by 12 junk tokens) of a stratified subset of descriptions (thorough: of all); every sequence of <= 3 PFD Management requests over {T1, T2, T3, empty, three rejected forms} followed by PDRs naming " +
-		"app1/app2/app3 in both directions. distinct_nontrivial = strict grammar cases + PFD cases compared at the fake BESS"
+		"truncate after, replace by 12 junk tokens) of a stratified subset of descriptions (thorough: of all); every sequence of <= 3 PFD Management requests over {T1, T2, T3, T4 (UE-side ports), empty, three rejected forms} followed by PDRs naming " +
+		"app1/app2/app3 in both directions for two UE addresses in turn; every 'from <remote> [ports] to assigned' string of the grammar also through the UP4 plug-in (applications / terminations entries compared by C04's image check). distinct_nontrivial = strict grammar cases + PFD cases compared at the fake BESS"
 	res.Assumptions = []string{"reference denotation of DESIGN.md appendix A.1: the remote endpoint is the one that is not 'assigned'; oriented by the PDR's direction",
 		"ports wider than 100 are left to C17 (the Exact strategy refuses them after acceptance); protocol 0/255, port 0, UE-side ports: generated, crash-freedom only"}
 	e := newC08Env(res)
-	defer e.sys.close()
+	bessOpen := true
+	closeBESS := func() {
+		if bessOpen {
+			bessOpen = false
+			e.sys.close()
+		}
+	}
+	defer closeBESS()
 	if rc := vReplayCase(); rc != nil {
 		var cs c08Case
 		json.Unmarshal(rc, &cs)
+		if cs.P4 {
+			closeBESS() // one instance at a time (the metrics collectors are process-wide)
+			u := &c08UP4Env{res: res}
+			u.check(cs.Desc)
+			u.sys.close()
+			return
+		}
 		if cs.App {
 			all := c08PFDReqs()
 			var seq []c08PFDReq
@@ -423,6 +507,26 @@ func TestVerifC08(t *testing.T) {
 		}
 	}
 	rec(nil)
+	// UP4: every description of the form the statement fixes a meaning for ("... from <remote> [ports] to assigned")
+	closeBESS() // one instance at a time (the metrics collectors are process-wide)
+	u4 := &c08UP4Env{res: res}
+	nu4 := 0
+	for _, d := range gram {
+		if !strings.HasSuffix(d, " to assigned") || strings.Contains(d, "from assigned") {
+			continue
+		}
+		item++
+		nu4++
+		if !vMine(item) || res.expired() {
+			continue
+		}
+		u4.check(d)
+	}
+	if u4.sys != nil {
+		res.Transitions += int64(u4.sys.steps)
+		u4.sys.close()
+	}
+	res.Extra["up4_strings"] = nu4
 	res.sample(c08Case{Desc: "permit out tcp from 10.1.2.0/24 1000-1003 to assigned", Uplink: true, UE: "16.0.0.1"})
 	res.sample(c08Case{Desc: "permit out tcp from 10.1.2.0/24 9-3 to assigned", Uplink: false, UE: "16.0.0.1"})
 	res.sample(c08Case{App: true, PFDSeq: []string{"T1", "bad-noflow-app1", "T2"}})
